@@ -6,7 +6,6 @@ template code and python code in expressions.
 
 import re
 import typing as t
-from ast import literal_eval
 from collections import deque
 from sys import intern
 
@@ -663,8 +662,9 @@ class Lexer:
                     # Python limits the number of digits it converts
                     raise TemplateSyntaxError(str(e), lineno, name, filename) from e
             elif token == TOKEN_FLOAT:
-                # remove all "_" first to support more Python versions
-                value = literal_eval(value_str.replace("_", ""))
+                # like int above, float accepts all the decimal digits that
+                # the regular expression matches, not only ASCII ones
+                value = float(value_str.replace("_", ""))
             elif token == TOKEN_OPERATOR:
                 token = operators[value_str]
 
